@@ -284,6 +284,8 @@ where
                     self.min_store
                         .update_with_maxtracker(k, &x, i, &mut self.max_tracker);
                 if !inserted {
+                    #[cfg(feature = "verif_hooks")]
+                    crate::verif::tick(crate::verif::Event::OrdRejected);
                     break;
                 }
                 // x is growing, so even if last update was possible at slot k, it is possible another value of x
@@ -304,6 +306,12 @@ where
         // we can update signature
         self.min_store.create_signature::<D, H>(data)
     } // end of hash_set
+
+    /// verification hook : the m*l sequence indices selected by the last hash_set (sorted inside each position)
+    #[cfg(feature = "verif_hooks")]
+    pub fn verif_selected_indices(&self) -> Vec<u64> {
+        self.min_store.indices.clone()
+    }
 
     /// This function changes the state of internal random generator.
     /// It is mainly useful to study variance of the estimator as in tests, and should be ignored for other purposes.
